@@ -308,6 +308,25 @@ func (x *c15) run(rng *rand.Rand, caseNo int) {
 				res = r
 			}
 		}
+		// exact ties (two expiries, or a teardown and an expiry, in the same instant) are out of scope
+		// here: C18 explores them for crashes only. Step aside if the teardown instant would tie.
+		tie := func(at time.Time) bool {
+			for _, e := range h.upcoming() {
+				if e.what != "alloc" || e.c != v {
+					if d := e.at.Sub(at); d > -1500*time.Millisecond && d < 1500*time.Millisecond {
+						return true
+					}
+				}
+			}
+
+			return false
+		}
+		if cause == "expiry" && tie(a.Exp) {
+			cause = "refresh0"
+		}
+		for i := 0; cause != "expiry" && tie(time.Now()) && i < 10; i++ {
+			w.Sleep(2 * time.Second)
+		}
 		switch cause {
 		case "expiry":
 			if d := time.Until(a.Exp.Add(time.Second)); d > 0 {
@@ -429,6 +448,14 @@ func init() {
 
 			return 1000
 		},
-		Run: runC15,
+		Run: func(t *testing.T, rng *rand.Rand, rec *sim.Rec, tier string, caseNo int) {
+			if caseNo%8 == 7 {
+				// peer TCP connections are resources too: RFC 6062 histories with teardowns
+				runC16(t, rng, rec, tier, caseNo)
+
+				return
+			}
+			runC15(t, rng, rec, tier, caseNo)
+		},
 	})
 }
